@@ -127,7 +127,7 @@ impl Corpus for Quorum {
             [v[0], v[1], v[2], v[3], v[4], v[5]]
         }
         (
-            flow.sim().compiled(),
+            super::util::compile_locked(|| flow.sim().compiled()),
             QPorts {
                 q_in: arr(q_in),
                 q_ok: arr(q_ok),
@@ -314,7 +314,7 @@ impl Corpus for Join {
         let ack = ack.sim_output();
         let joined = joined.sim_output();
         (
-            flow.sim().compiled(),
+            super::util::compile_locked(|| flow.sim().compiled()),
             JPorts {
                 meta: Box::leak(Box::new(meta)),
                 resp: Box::leak(Box::new(resp)),
